@@ -130,6 +130,16 @@ Theorem C12_script_roundtrip : forall (F : Type) (parse_float : str -> option F)
 Proof. intros F pf prf zero one milli H1 H2 H3. exact (script_roundtrip F pf prf zero H1 H2 H3 one milli). Qed.
 Print Assumptions C12_script_roundtrip.
 
+(* ... and a trajectory (the dictionary save_rdtrajectory builds with the data in line, read by load_rdtrajectory): its script, its
+   own system, sampled data and times (bit-identical, equivalent units), engine description and option, coarse-graining map *)
+Theorem C12_trajectory_roundtrip : forall (F : Type) (parse_float : str -> option F) (print_float : F -> str) (zero one milli : F),
+  (forall x, parse_float (print_float x) = Some x) -> (forall x, existsb is_space (print_float x) = false) ->
+  (forall x, print_float x <> nil) ->
+  forall (t : trajectory_obj F), wf_trajectory F t ->
+  exists t', read_trajectory F parse_float zero one milli (write_trajectory F print_float zero wr t) = Ok t' /\ trajectory_equiv F zero t t'.
+Proof. intros F pf prf zero one milli H1 H2 H3. exact (trajectory_roundtrip F pf prf zero H1 H2 H3 one milli). Qed.
+Print Assumptions C12_trajectory_roundtrip.
+
 (* what the writers put into the dictionaries reads back: every quantity is written as str(UnitValue) (C18) ... *)
 Theorem C12_quantity_text : forall (F : Type) (parse_float : str -> option F) (print_float : F -> str) (zero : F),
   (forall x, parse_float (print_float x) = Some x) -> (forall x, existsb is_space (print_float x) = false) ->
